@@ -24,7 +24,8 @@ from .errors import Inconclusive
 
 VENDOR = os.path.join(common.VERIF, 'vendor')
 MIR_TARGET = os.path.join(common.BUILD, 'mir')
-SCRATCH = '/var/tmp/cgv-mir-%d' % os.getuid()
+import hashlib
+SCRATCH = '/var/tmp/cgv-mir-%d-%s' % (os.getuid(), hashlib.sha1(common.VERIF.encode()).hexdigest()[:8])
 
 
 class Unsupported(Inconclusive):
@@ -33,6 +34,10 @@ class Unsupported(Inconclusive):
 
 def dump_mir():
     """-> MIR text of the complgen library built from /repo's current working tree"""
+    import fcntl
+    os.makedirs(common.BUILD, exist_ok=True)
+    lock = open(os.path.join(common.BUILD, '.mirlock'), 'w')
+    fcntl.flock(lock, fcntl.LOCK_EX)     # one dump at a time per copy of /verif (the scratch path is shared)
     os.makedirs(SCRATCH, exist_ok=True)
     try:
         subprocess.run(['rsync', '-a', '--delete', '--exclude', 'target', '--exclude', '.git', '--exclude', 'e2e',
@@ -54,6 +59,8 @@ def dump_mir():
         return p.stdout
     finally:
         shutil.rmtree(SCRATCH, ignore_errors=True)
+        fcntl.flock(lock, fcntl.LOCK_UN)
+        lock.close()
 
 
 def function_text(mir, name):
